@@ -53,6 +53,8 @@ pub struct SchedOut {
     pub unique: usize,
     pub is_done: bool,
     pub discovered: Result<Vec<&'static str>, String>,
+    /// the paths behind `discovered` (for the witness validation of C03's schedule-owned check)
+    pub discovery_paths: std::collections::HashMap<&'static str, Path<S, u16>>,
     pub joined: Joined,
     pub deadlock: Option<String>,
     pub stuck: bool,
@@ -93,14 +95,14 @@ pub fn run_scheduled(c: &SchedCase, join_wait: Duration) -> SchedOut {
     }
     /// `join()` on a helper thread. It is reported as hung only if it has not returned and no
     /// state has been evaluated for `wait` (a slow machine keeps evaluating; a hung join does not).
-    fn joined<C: Checker<GM> + Send + 'static>(c: C, wait: Duration, progress: &std::sync::atomic::AtomicU64) -> (Joined, Option<(usize, bool, Result<Vec<&'static str>, String>)>) {
+    fn joined<C: Checker<GM> + Send + 'static>(c: C, wait: Duration, progress: &std::sync::atomic::AtomicU64) -> (Joined, Option<(usize, bool, Result<std::collections::HashMap<&'static str, Path<S, u16>>, String>)>) {
         let (tx, rx) = mpsc::channel();
         std::thread::Builder::new()
             .name("srv-join".into())
             .spawn(move || {
                 let r = catch_quiet(move || {
                     let c = c.join();
-                    let d = catch_quiet(|| c.discoveries().keys().copied().collect::<Vec<_>>());
+                    let d = catch_quiet(|| c.discoveries());
                     (c.unique_state_count(), c.is_done(), d)
                 });
                 let _ = tx.send(r);
@@ -147,9 +149,11 @@ pub fn run_scheduled(c: &SchedCase, join_wait: Duration) -> SchedOut {
             joined(ch, join_wait, &progress)
         }
     };
-    let (unique, is_done, discovered) = res.unwrap_or((0, false, Err("join did not return a checker".into())));
+    let (unique, is_done, paths) = res.unwrap_or((0, false, Err("join did not return a checker".into())));
+    let discovered = paths.as_ref().map(|m| m.keys().copied().collect::<Vec<_>>()).map_err(|e| e.clone());
+    let discovery_paths = paths.unwrap_or_default();
     let visits = std::mem::take(&mut *visits.lock().unwrap());
-    SchedOut { visits, unique, is_done, discovered, joined: j, deadlock: sched.deadlock(), stuck: sched.stuck(), stats: sched.stats() }
+    SchedOut { visits, unique, is_done, discovered, discovery_paths, joined: j, deadlock: sched.deadlock(), stuck: sched.stuck(), stats: sched.stats() }
 }
 
 pub fn sched_strategy(tier: Tier) -> BoxedStrategy<SchedCase> {
